@@ -10,7 +10,7 @@ META = dict(
 FINISH = dict(level="proof", trusted=pc.TRUSTED, rule='as C08 plus zero-window and MTU-step programs; get_next_clock queried with timeouts 0, past, near, far',
               assumptions=["clock never reports 0 (reserved by the implementation for 'use the real clock')", "MTU advice >= 296"])
 
-KINDS = "session,config,wrap,zero-window,mtu".split(",")
+KINDS = "session,config,wrap,zero-window,mtu,heal,heal".split(",")
 prebuild = pc.prebuild
 
 
